@@ -644,8 +644,14 @@ def t_loc_siblings(facts, res, tier):
         if set(used) != {"0", "1", "2"}:
             res.fail(key, facts.where(fn), "%s does not read file (.0), line (.1) and includer (.2) from the map entry: %s" % (fn["name"], used))
         # which field feeds `line`
-        for lit in walk(fn["body"]):
-            if lit.get("k") == "struct" and lit["segs"][-1] in ("Syntax", "Compiler"):
+        from rules_opt import guards_walk
+        lits = []
+        guards_walk(fn["body"], [], lits, lambda n: n.get("k") == "struct" and n["segs"][-1] in ("Syntax", "Compiler"))
+        for lit, guards in lits:
+            if True:
+                # the fallback built when the map is empty has no location to report
+                if any(pol and g.replace(" ", "").endswith("mapped_lines.is_empty()") for g, pol in guards):
+                    continue
                 f = {x["name"]: expr_text(x["e"]) for x in lit["fields"]}
                 if not f.get("line", "").endswith("].1") or not f.get("filename", "").endswith("].0.to_string()"):
                     res.fail(key, facts.where(fn, lit), "%s builds its error from the wrong map fields: line=%s filename=%s" % (fn["name"], f.get("line"), f.get("filename")))
